@@ -35,7 +35,7 @@ CleanTexts == IF ~Fam("corrupt") THEN {} ELSE {x \in SeqsOver({1, 2, 5}, MaxLen)
 CorruptCases == {[kind |-> "corrupt", alpha |-> "cleanpair", slots |-> s, iw |-> p[1], dw |-> p[2], seed |-> sd, g |-> g] :
                    s \in CleanTexts,
                    p \in {<<0, 1>>, <<1, 0>>, <<1, 1>>, <<0, 5>>, <<5, 0>>, <<5, 5>>, <<5, 1>>, <<1, 5>>},
-                   sd \in 0..2, g \in BOOLEAN}
+                   sd \in {0, 1, 2, 4}, g \in BOOLEAN}     \* the seed also selects 0-2 prefix / 0-1 suffix tokens of the task
 
 Cases == CleanCases \cup PairCases \cup RepairCases \cup CorruptCases
 VARIABLE x
